@@ -13,6 +13,7 @@ import (
 	"io"
 	"log"
 	"net/http"
+	"net/http/httptest"
 	"os"
 	"testing"
 	"testing/synctest"
@@ -44,6 +45,14 @@ type vpSrvOpts struct {
 	ReadBuf           int // client's read buffer size limit (0 = unlimited)
 	NoPrefaceHandling bool
 	MaxHeaderBytes    int // http.Server.MaxHeaderBytes (0 = default, 1 MiB)
+	// Upgrade starts the connection the way golang.org/x/net/http2/h2c does after an
+	// "Upgrade: h2c" request: ServeConnOpts.UpgradeRequest (a GET for UpgradePath, which
+	// becomes stream 1, half-closed by the client) and ServeConnOpts.Settings (the
+	// decoded HTTP2-Settings header, client-controlled bytes). The client still sends
+	// its preface.
+	Upgrade         bool
+	UpgradePath     string
+	UpgradeSettings []byte
 }
 
 func vpSched(k int) func() WriteScheduler {
@@ -95,11 +104,27 @@ func vpNewSrv(o vpSrvOpts, handler http.Handler) *vpSrv {
 		CipherSuite:        tls.TLS_AES_128_GCM_SHA256,
 		NegotiatedProtocol: "h2",
 	}
+	opts := &ServeConnOpts{Handler: handler, BaseConfig: h1}
+	if o.Upgrade {
+		req := httptest.NewRequest("GET", o.UpgradePath, nil)
+		req.Header.Set("Connection", "Upgrade, HTTP2-Settings")
+		req.Header.Set("Upgrade", "h2c")
+		opts.UpgradeRequest = req
+		opts.Settings = o.UpgradeSettings
+		if opts.Settings == nil {
+			opts.Settings = []byte{}
+		}
+	}
 	go func() {
 		defer close(s.done)
-		h2.ServeConn(&netConnWithConnectionState{Conn: srv, state: tlsState}, &ServeConnOpts{Handler: handler, BaseConfig: h1})
+		h2.ServeConn(&netConnWithConnectionState{Conn: srv, state: tlsState}, opts)
 	}()
-	s.sc = <-connc
+	select {
+	case s.sc = <-connc:
+	case <-s.done:
+		// ServeConn gave up before the connection was set up (for example rejected
+		// HTTP2-Settings of an upgrade request): s.sc stays nil
+	}
 	s.fr = NewFramer(cli, cli)
 	s.fr.SetMaxReadFrameSize(1<<24 - 1)
 	synctest.Wait()
